@@ -5,8 +5,8 @@ import itertools
 
 from pv import gen
 
-METHODS = ["oneagent", "adhoc", "heur_comhost", "gh_cgdp", "ilp_fgdp", "ilp_compref", "oilp_cgdp"]
-ILP = ("ilp_fgdp", "ilp_compref", "oilp_cgdp")
+METHODS = ["oneagent", "adhoc", "heur_comhost", "gh_cgdp", "ilp_fgdp", "ilp_compref", "oilp_cgdp", "ilp_compref_fg"]
+ILP = ("ilp_fgdp", "ilp_compref", "oilp_cgdp", "ilp_compref_fg")
 PINNING = ("gh_cgdp", "ilp_fgdp", "oilp_cgdp")  # documented: hosting cost 0 pins the computation on that agent
 GRAPHS = {"constraints_hypergraph": "dsa", "factor_graph": "maxsum", "pseudotree": "dpop", "ordered_graph": "syncbb"}
 
